@@ -46,6 +46,11 @@ void ares_close_connection(ares_conn_t *conn, ares_status_t requeue_status)
   ares_server_t  *server  = conn->server;
   ares_channel_t *channel = server->channel;
 
+  /* Let a reader further up the call stack know this connection is gone */
+  if (channel->conn_reading == conn) {
+    channel->conn_reading = NULL;
+  }
+
   /* Unlink */
   ares_llist_node_claim(
     ares_htable_asvp_get_direct(channel->connnode_by_socket, conn->fd));
